@@ -168,7 +168,7 @@ func (comp) Gen(r *kit.Rng, maxLen int, tier string) kit.Case {
 	startOp := func(i int) {
 		if contains(src[i], selfs[i]) {
 			ops = append(ops, fmt.Sprintf("start %d", i))
-		} else if tier == "thorough" && r.Intn(4000) == 0 {
+		} else if tier == "thorough" && r.Intn(200) == 0 {
 			ops = append(ops, fmt.Sprintf("start %d slow", i))
 		}
 	}
